@@ -22,7 +22,8 @@ def gen_c04(r, big=False):
                 # cut short by the shutdown bound
                 ops.append("waiti sx 1 %s" % r.choice(["100", "5000", "50000", "inf"]))
             elif c < 0.5:
-                ops.append("sleep %s" % r.choice(["0", "1", "100", "100", "100", "250", "1000", "1000", "5000", "inf"]))
+                ops.append("%s %s" % ("sleepd" if r.random() < 0.2 else "sleep",
+                                      r.choice(["0", "1", "100", "100", "100", "250", "1000", "1000", "5000", "20000", "inf"])))
             elif c < 0.65:
                 ops.append("yield")
             elif c < 0.95:
